@@ -29,7 +29,7 @@ CHECKS = {
               "and 11 theorems state it is the documented one: rung order, ten left-associative chains whose operands all come from the "
               "next tighter rung, each of 36 operators built on its rung and no looser one, prefix forms, the shape of falls / hoch / unary. "
               "Further fixed matrices: every loop form x jumps observing counter/index/element (296 programs), equality of Kommazahlen per holder. "
-              "The ladder is also modelled AS A PARSER (DDP.LadderParse: ifExpression / ten chain rungs / unary / grouping over an operator table, generic in the table; the table of "
+              "The ladder is also modelled AS A PARSER (DDP.LadderParse: ifExpression / boolXOR / ten chain rungs / unary / grouping over an operator table, generic in the table; the table of "
               "the DDP in /repo is computed from the regenerated ladder): parse_pp — for every table and every tree, parsing the "
               "minimal-parentheses spelling (the printer of the program generator) gives back the tree, at every rung and in every context; "
               "pp_injective; fuel_suffices / parseAll_pp (the statement without fuel); tie: token sequences (spellings of random trees, random "
@@ -38,7 +38,7 @@ CHECKS = {
               "whose body assigns to the loop variable."),
         note=TB + "The code generator, LLVM and libc are reached by correspondence only (partial): instruction selection, "
              "optimisation passes and printf are not modelled. Programs that hit LLVM-undefined operations are not judged. "
-             "The parser model covers `falls`, the ten chain rungs, prefix operators and grouping (entweder / comparisons / hoch / slicing / indexing / casts: "
+             "The parser model covers `falls`, `entweder`, the ten chain rungs, prefix operators and grouping (comparisons / shifts / hoch / slicing / indexing / casts: "
              "shape theorems over the regenerated ladder only); no theorem states type soundness of the evaluator. "
              "Known findings: Kommazahlen held in Variablen compare by bytes; a list holding a not-a-number value equals itself through one name.",
         technique="Lean 4 proof about a total reference evaluator and over the regenerated precedence ladder + differential correspondence of generated programs through the real compiler",
@@ -67,8 +67,8 @@ CHECKS = {
               "start (init_walk_bounded), the recursion through alias-argument sub-parsers is bounded by the token count iff every pattern "
               "has a word, and the EXPRESSION LADDER (ten chain rungs, unary, primary/grouping; DDP.LadderParse over the table regenerated "
               "from expressions.go, tied to the real parser's trees) terminates on every token sequence: every successful rung consumes a "
-              "token (ladder_rungs_consume) and from |ts|*14+11-k units of fuel on the answer of rung k — acceptance or rejection — no "
-              "longer depends on the fuel (expression_ladder_terminates; |ts|*14 since conditional expressions are in the model). The rest of the recursive-descent parser (statements, declarations, "
+              "token (ladder_rungs_consume) and from |ts|*15+11-k units of fuel on the answer of rung k — acceptance or rejection — no "
+              "longer depends on the fuel (expression_ladder_terminates; |ts|*15 since conditional expressions and entweder are in the model). The rest of the recursive-descent parser (statements, declarations, "
               "alias matching proper), the resolver and the type checker have NO Lean model; for them the "
               "check is a search: every input is parsed in a sacrificial harness process (panics answered by the harness, fatal "
               "errors and hangs detected by the driver, the culprit re-run alone with time and memory limits): all token strings up to "
